@@ -14,7 +14,7 @@ INFO = {
                    'returned dictionary, the face object and the keychain arguments are compared with the decision table of '
                    'the statement.  Honest note: strings are concrete; the solver\'s role is the pruned exhaustive '
                    'exploration of the presence / existence vector.',
-    'bounds': {'quick': {'configuration_files': '4 candidate paths, each present or not', 'environment': '3 variables, each '
+    'bounds': {'quick': {'uri_schemes': '13 hand-written URIs + the grid of 10 scheme stems x 16 suffixes', 'configuration_files': '4 candidate paths, each present or not', 'environment': '3 variables, each '
                          'set or not', 'values': 'chosen from small concrete sets (absolute / relative / bare scheme store '
                          'locations; unix tcp tcp4 tcp6 udp udp4 udp6 and unknown schemes, with and without port)'}},
     'outside': ['configuration texts outside the chosen value sets', 'non-Linux platforms'],
@@ -174,6 +174,21 @@ URIS = [('unix:///run/nfd.sock', ('unix', '/run/nfd.sock', None)), ('unix:///a/b
         ('tcp6://[::1]:6364', ('tcp', '::1', 6364)), ('udp://h.example:9', ('udp', 'h.example', 9)),
         ('udp4://1.2.3.4', ('udp', '1.2.3.4', 6363)), ('udp6://[fe80::1]', ('udp', 'fe80::1', 6363)),
         ('ws://h.example:9696', None), ('bogus://x', None), ('', None), ('tcp', None), ('http://h/', None)]
+
+# scheme grid: every base x suffix; only the seven documented schemes select a face
+KNOWN = {'unix': 'unix', 'tcp': 'tcp', 'tcp4': 'tcp', 'tcp6': 'tcp', 'udp': 'udp', 'udp4': 'udp', 'udp6': 'udp'}
+for _b in ('unix', 'tcp', 'udp', 'ws', 'tc', 'ud', 'tcpp', 'udpp', 't', 'u'):
+    for _s in ('', '4', '6', '46', '64', '44', '66', '0', '5', '7', '4a', '-4', '.6', '+4', '4-', '6.'):
+        _sch = _b + _s
+        if any(u[0].startswith(_sch + ':') for u in URIS):
+            continue
+        if _sch in KNOWN:
+            if KNOWN[_sch] == 'unix':
+                URIS.append((_sch + ':///run/g.sock', ('unix', '/run/g.sock', None)))
+            else:
+                URIS.append((_sch + '://g.example:7001', (KNOWN[_sch], 'g.example', 7001)))
+        else:
+            URIS.append((_sch + ('://g.example:7001' if not _b.startswith('unix') else ':///run/g.sock'), None))
 
 
 def h_face(eng, case):
